@@ -7,12 +7,12 @@ EXPLANATION = 'each function that issues MPI-IO data transfers is enforced again
 MODEL = ['stubs/mpi_model.c']
 COMMON = ['src/drivers/common/error_mpi2nc.c', 'src/drivers/common/ncx.m4']
 
-def jobs(tier, ws):
+def jobs(tier, ws, prop='C11'):
     js = []
-    js.append(Job('C11/ncmpio_write_numrecs', 'C11', ['src/drivers/ncmpio/ncmpio_sync.c'] + COMMON, 'C11_write_numrecs.c',
+    js.append(Job(prop + '/ncmpio_write_numrecs', prop, ['src/drivers/ncmpio/ncmpio_sync.c'] + COMMON, 'C11_write_numrecs.c',
                   enforce='ncmpio_write_numrecs', defines=['-DENFORCE_ncmpio_write_numrecs'], extra_src=MODEL,
                   canaries=['wrote_ok', 'failure_reported', 'eintoverflow', 'nothing_to_do'], unwind=26, kind='proof'))
-    js.append(Job('C11/ncmpio_read_write', 'C11', ['src/drivers/ncmpio/ncmpio_file_io.c'] + COMMON, 'C11_read_write.c',
+    js.append(Job(prop + '/ncmpio_read_write', prop, ['src/drivers/ncmpio/ncmpio_file_io.c'] + COMMON, 'C11_read_write.c',
                   enforce='ncmpio_read_write', extra_src=MODEL, canaries=['transferred', 'failure_reported', 'packed_path'], unwind=40, kind='proof', timeout=600,
                   assumptions=['ncmpio_read_write instance: predefined element type, count <= 16, packing buffer < 1 KiB; MPI_Pack/MPI_Unpack bookkeeping only']))
     return js
